@@ -876,6 +876,40 @@ pub fn csr_family(rng: &mut Rng) -> Shape {
     Shape { name: "csr-traffic", prog: p }
 }
 
+/// Cycles that are entered and closed by jumps which also define a register (`jal t0, L`; C06, C12): a
+/// "must" fact defined by such a jump can chase itself round the cycle.
+pub fn linking_jump_cycle_family(rng: &mut Rng) -> Shape {
+    let mut p = Program::default();
+    let n = 3 + rng.below(4);
+    let link = |rng: &mut Rng| *rng.pick(&[5u8, 6, 11, 12, 28, 0, 0]);
+    let with_main = rng.chance(0.5);
+    if with_main {
+        p.label("main");
+    }
+    // entered from behind: the first statement jumps to the last block
+    p.push(Ins::Jal { rd: link(rng), label: format!("blk_{}", n - 1) });
+    for k in 0..n {
+        p.label(&format!("blk_{k}"));
+        for _ in 0..rng.below(3) {
+            match rng.below(4) {
+                0 => p.push(Ins::addi(*rng.pick(&[9u8, 18, 5]), *rng.pick(&[6u8, 7, 28]), 0)),
+                1 => p.push(Ins::li(*rng.pick(&[17u8, 10, 6]), rng.range(0, 12) as i32)),
+                2 => p.push(Ins::Branch { c: *rng.pick(&[Cond::Eq, Cond::Ne]), rs1: *rng.pick(&[10u8, 17, 6]), rs2: ZERO, label: format!("blk_{}", rng.below(n)) }),
+                _ => p.push(Ins::Alu { op: AluOp::Add, rd: *rng.pick(&[10u8, 12]), rs1: 31, rs2: 6 }),
+            }
+        }
+        // each block leaves through a (linking) jump to an earlier or later block
+        let to = if k == 0 { rng.below(n) } else { rng.below(k + 1) };
+        if k + 1 == n || rng.chance(0.7) {
+            p.push(Ins::Jal { rd: link(rng), label: format!("blk_{to}") });
+        }
+    }
+    if rng.chance(0.3) {
+        exit(&mut p);
+    }
+    Shape { name: "linking-jump-cycle", prog: p }
+}
+
 /// A function that loops back to its own entry label (C01, C03, C11): what is known "at entry" is
 /// known once, not again on every turn of the loop.
 pub fn self_loop_family(rng: &mut Rng) -> Shape {
